@@ -11,8 +11,23 @@ from .c07 import TFMIN, chain_rows
 ID = 'C12'
 
 
-def _template(ctx, kind, side, exch='futures'):
+def _template(ctx, kind, side, exch='futures', data=()):
     long = side == 'long'
+    if kind == 'T7d':
+        # the entry decision reads the data route: enter at market when the last completed candle of the (largest) data-route
+        # timeframe is bullish (long) / bearish (short); exits far away
+        dtf = sorted(data, key=lambda x: TFMIN[x])[-1]
+        T = S.make_template(side=side, entry=None, stop=(40.0 if long else 160.0), take=(160.0 if long else 40.0), qty=1.0, name='T7d')
+        base_long, base_short = T.should_long, T.should_short
+
+        def cond(self):
+            c = self.get_candles(self.exchange, self.symbol, dtf)
+            if len(c) < 2:
+                return False
+            return bool(c[-2][2] > c[-2][1]) if long else bool(c[-2][2] < c[-2][1])
+        T.should_long = lambda self: base_long(self) and cond(self)
+        T.should_short = lambda self: base_short(self) and cond(self)
+        return T
     if kind == 'T1':
         pe = ctx.real('pe', 50, 200)
         sl = ctx.real('sl', 50, 200)
@@ -55,7 +70,7 @@ def h_pair(ctx, n=6, tf='3m', kind='T1', side='long', exch='futures', data=(), s
     """normal then fast run of the same symbolic session on one path.  Minutes listed in `sym` are symbolic; the others are
     flat at the previous close."""
     rows = S.sparse_rows(ctx, n, list(sym), move=move, gaps=list(gaps))
-    T = _template(ctx, kind, side, exch)
+    T = _template(ctx, kind, side, exch, data)
     cfg = S.config_dict(exch, leverage=2, mode='cross', fee=0.001, balance=10000.0)
     droutes = [(S.SYMBOL, t) for t in data]
     rec_n = S.run_session(S.make_candles(rows), T, cfg, timeframe=tf, data_routes=droutes, fast=False)
@@ -109,6 +124,7 @@ def _jobs(tier):
         add(n=6, tf='3m', kind='T3', side='long', sym=[1, 4])
         add(n=6, tf='3m', kind='T1', side='long', sym=[4], gaps=[4])
         add(n=6, tf='3m', kind='T1', side='short', sym=[5], gaps=[5])
+        add(n=9, tf='3m', kind='T7d', side='long', data=['5m'], sym=[2, 7])  # data route that is not a multiple of the trading timeframe
     else:
         for side in ('long', 'short'):
             add(n=6, tf='3m', kind='T1', side=side, sym=[1, 4])
@@ -123,6 +139,10 @@ def _jobs(tier):
             add(n=6, tf='3m', kind='T1', side=side, sym=[3, 4], gaps=[3, 4])
             add(n=10, tf='5m', kind='T1', side=side, sym=[7], gaps=[7])
         add(n=15, tf='3m', kind='T1', side='long', data=['15m'], sym=[1, 4])
+        add(n=9, tf='3m', kind='T7d', side='long', data=['5m'], sym=[2, 7])
+        add(n=12, tf='3m', kind='T7d', side='short', data=['5m'], sym=[3, 6, 8])
+        add(n=15, tf='5m', kind='T7d', side='long', data=['15m'], sym=[3, 12])
+        add(n=12, tf='3m', kind='T7d', side='long', data=['5m', '15m'], sym=[2, 7])
         add(n=6, tf='3m', kind='T1', side='long', sym=[3, 4, 5], move=8)
     return jobs
 
@@ -140,7 +160,8 @@ def setup(tier, seed):
                        'run; z3 then proves executed orders (side, type, qty, price, fill minute), closed trades and final balances equal. Paths outside '
                        'the precondition are counted.',
         'bounds': {'trading_timeframes': sorted({j.kwargs['tf'] for j in jobs}), 'symbolic_minutes': 'two or three per session (others flat at the previous close), range < 20',
-                   'templates': sorted({j.kwargs['kind'] for j in jobs})},
+                   'templates': sorted({j.kwargs['kind'] for j in jobs}),
+                   'data_routes': 'none; 15m; 5m next to a 3m trading route (not a multiple), with a strategy (T7d) whose entry reads the data route'},
         'outside': ['more than 3 symbolic minutes', 'timeframes above 5m for the trading route (15m as a data route)', 'several symbols', 'float rounding'],
         'stubs': list(jstubs.INSTALLED),
         'assumptions': ['floats as reals', 'exits at least 30 away from the entry while a symbolic minute moves less than 20 (the statement\'s "spaced wider than a trading candle can move")'],
